@@ -24,6 +24,7 @@ func init() {
 			{ID: "C03-R7", Doc: "the task's shared wait channel is retired only by Broadcast (cleared after close; made only when absent), so no waiter misses a state change", Run: c03r7},
 			{ID: "C03-R8", Doc: "a task is ready only if every dependency is satisfied (the readiness flag is a conjunction over the dependency loop)", Run: c03r8},
 			{ID: "C03-R9", Doc: "a task goes back to TaskInit only from TaskLost (the re-election guard excludes every other state)", Run: c03r9},
+			{ID: "C03-R10", Doc: "an evaluation succeeds only behind a fresh traversal of every root that found everything done; every waiter reports back", Run: c03r10},
 		},
 	})
 }
